@@ -627,3 +627,6 @@ def required_labels(tier):
 
 
 KNOWN_PREDICATES = {}
+
+
+RULE = RULE + " " + ("History: after parse_file() of a document with a '# language:' header the feature's parser object parses a steps text in that language (what context.execute_steps does) and must report the scenario's own steps.")
